@@ -42,7 +42,9 @@ type seg struct {
 }
 
 var rawNames = []string{"a", "b", "a/b", "a b", "x$y", "req.time", "\xc3\xa9.x", "g\tg", "c,d"}
-var tagPool = []string{"k:v", "env:prod", "host:h1", "host:h2", "t", "hostx:1", "host:", "u:1", "w", "z:9", "Host:H", "cr\r", "q:1\r"}
+var tagPool = []string{"k:v", "env:prod", "host:h1", "host:h2", "t", "hostx:1", "host:", "u:1", "w", "z:9", "Host:H", "cr\r", "q:1\r",
+	// pairs of equal length and equal Adler-32 checksum: different tags, and with ignore-host different hosts
+	"pod:132", "pod:213", "host:web-132", "host:web-213"}
 var invalidLines = []string{"a:oops|c|@0.1", "a:NaN|g|@0.25", "a:1|c|@0.5|@0", "a:x|ms|@0.1|#k:v", "bad", "a:1|x", ":1|c", "a:b|c", "a:1|c|@x", "_e{1,2}:a|b", "a:1", "$$:1|c", "a:NaN|g", "a:1|c|@0", "_x", "a:1|msx", "|", "a|1:c", "a:1|c\r", "a:1|g|@0.5\r",
 	// rejected lines of 60..100 bytes (what a log line may want to shorten)
 	"bad" + strings.Repeat("x", 61), "bad" + strings.Repeat("y", 62), "a:1|" + strings.Repeat("z", 66), "q" + strings.Repeat(":", 73), "bad" + strings.Repeat("w", 74), "bad" + strings.Repeat("v", 75), strings.Repeat("u", 100),
